@@ -124,6 +124,7 @@ type Sim struct {
 	// OnStep, when set, runs on the scheduler goroutine before each resume (invariant monitors).
 	OnSwitch func(from, to *G)
 	OnStep   func(step int, name string, site int32)
+	OnFail   func() // called when the scheduler stops with a Failure, before goroutines are released
 }
 
 type TraceEv struct {
@@ -168,7 +169,7 @@ func (s *Sim) fatal(format string, args ...any) {
 	buf := make([]byte, 1<<16)
 	n := runtime.Stack(buf, false)
 	os.Stderr.Write(buf[:n])
-	os.Exit(2)
+	os.Exit(12) // 2 is the Go runtime's exit code for a panic in the system under test
 }
 
 // me returns the record of the calling goroutine, adopting it if it is unknown.
@@ -251,6 +252,9 @@ func (s *Sim) Run(main func()) {
 		panic("simrt: a simulation is already active")
 	}
 	defer func() {
+		if s.Failure != "" && s.OnFail != nil {
+			s.OnFail()
+		}
 		// release everybody into pass-through mode so that the bubble can drain
 		s.stopped.Store(true)
 		S.Store(nil)
